@@ -180,11 +180,12 @@ int FIXReader::callback_processor()
 		msg_ptr = &msg;
 #else
 		// poll (as the queue's blocking pop does) so that a stop is seen when the reader thread has already ended by itself
-		// (peer disconnected) and can no longer queue the empty quit marker; what is already queued is still processed
+		// (peer disconnected) and can no longer queue the empty quit marker; messages still queued at that point are left
+		// unprocessed: their numbers are not consumed, so the counterparty is asked for them again after the reconnect
+		if (_callback_cancellation_token || _cancellation_token || _session.is_shutdown())
+			break;
 		if (!_msg_queue.try_pop (msg_ptr))
 		{
-			if (_callback_cancellation_token || _cancellation_token || _session.is_shutdown())
-				break;
 			sched_yield();
 			continue;
 		}
